@@ -7,7 +7,7 @@ import SJ.Model.RawConv
 import SJ.Spec.Rec
 import SJ.Spec.Pos
 /-!
-Driver handlers of `harness/src/c19b.rs` (docs/C19B-NOTES.md): `RawValue` as a struct field (`rawfld`, model
+Driver handlers of `harness/src/c19b.rs` (docs/STREAMRAW-NOTES.md, "Third round"): `RawValue` as a struct field (`rawfld`, model
 `Model.RawStruct`) and `RawValue` ⇄ `Value` (`rawconv`, model `Model.RawConv`).
 -/
 namespace SJ.Drv.C19b
